@@ -211,6 +211,21 @@ type gateConn struct {
 	closed    chan struct{}
 	closeOnce sync.Once
 	rd, wr    *deadline
+	// per goroutine permits (goroutine id -> channels): lets the scheduler release the transport
+	// operation of one particular goroutine.  Filled by the scheduler before any call starts and
+	// read-only afterwards.
+	perG map[int64]*gperm
+}
+
+type gperm struct {
+	r, w chan struct{}
+}
+
+func (g *gateConn) mine() *gperm {
+	if p := g.perG[curGoid()]; p != nil {
+		return p
+	}
+	return &gperm{} // nil channels: never ready
 }
 
 func newPipe() (*gateConn, *peerConn) {
@@ -229,6 +244,8 @@ func newPipe() (*gateConn, *peerConn) {
 //go:noinline
 func (g *gateConn) waitR() error {
 	select {
+	case <-g.mine().r:
+		return nil
 	case <-g.permR:
 		return nil
 	case <-g.free:
@@ -243,6 +260,8 @@ func (g *gateConn) waitR() error {
 //go:noinline
 func (g *gateConn) waitW() error {
 	select {
+	case <-g.mine().w:
+		return nil
 	case <-g.permW:
 		return nil
 	case <-g.free:
